@@ -146,6 +146,9 @@ fn run_history(label: &str, case: &Case, steps: &[Vec<u64>], x: &mut Exec) {
                 }
             }
         }
+        for part_name in exact::untouched_diff(&before, &inst, false, false) {
+            x.violate("C03:instance:untouched-part-changed", format!("{label} step {si}: partial_evaluate changed the instance's {part_name}"));
+        }
         // each fixed value is recorded on its variable; nothing else about the variables changes
         if inst.decision_variables.len() != before.decision_variables.len() {
             x.violate("C03:instance:structure", format!("{label} step {si}: the number of decision variables changed"));
